@@ -179,6 +179,21 @@ CLAIMED = {
         'locations are distinct per dispatch. OS-level concurrency and '
         'the content of the appended log file are not decided.',
         'DESIGN.md section 5, C19'),
+    'C20': (
+        'constant propagation under the cloud_safe assumption + reaching '
+        'definitions (must-be-sanitised), path-effect-aware message lint '
+        'over the call-graph closure of run_mapping',
+        'Decides: under the cloud-safe flag every value stored as config / '
+        'log of the output and every line written by write_log is a '
+        'result of sanitize_paths, the two directory keys are removed, the '
+        'recorded module is package-relative, the sanitiser recurses into '
+        'dicts and lists; and every repo-authored message in functions '
+        'reachable from run_mapping presents a path-valued expression as '
+        'its own word or by name only, the forms the sanitiser\'s '
+        'tokeniser recognises (one documented, unreachable exception). '
+        'Third-party message text and the correctness of is_exposed are '
+        'not decided.',
+        'DESIGN.md section 5, C20'),
 }
 
 NOT_APPLICABLE = {
